@@ -11,6 +11,11 @@ reported step is judged by TLC (StepJudge).  Reported-cost clause: best_flops
 of the random-greedy optimizers and the stored score of the reusable
 optimizers equal the definitional cost of the tree built from the returned
 path (SnapshotJudge gives the definitional flops).
+
+The hypergraph simulator is also specified as a state machine of its own
+(spec/HGSim.tla, props/_hgsim.py): design-level instances, then TLC-generated
+behaviours (any two live nodes, generated / caller-chosen ids, copies)
+replayed on the real object with the whole state judged after every call.
 """
 import itertools
 import math
@@ -181,6 +186,8 @@ def run(run):
         else:
             run.sample({"eq": d["net"]["eq"], "dims": d["net"]["dims"], "ssa": d["ssa"], "simulator": d["sim"],
                         "steps": [{k: (sorted(x) if isinstance(x, (set, frozenset)) else x) for k, x in s.items()} for s in case["steps"]][:3]})
+    from . import _hgsim
+    _hgsim.run_hgsim(run, "c18")
     reported_costs(run, ct, rng, quick)
     run.cov["rule"] = ("networks (hyper, output-on-many, shared-by-all, dangling, scalars; hypergraph / raw processor: no repeated index) x "
                        "all ssa paths for N<=4, random beyond x 5 simulators replaying the same path; reported-cost clause on random-greedy "
